@@ -240,6 +240,12 @@ func scaleCheck(c *fw.Ctx, f *scaleFam, n int) *fw.Violation {
 		}
 	}
 	c.Outcome(string(kind))
+	// a second and third dimension for free: the same body run K times (every site is evaluated again and again) D frames deep
+	if kind == drive.KNone && len(sc.Files) == 0 && len(sc.Sels) == 0 && sc.RootEq == "" && n <= 130 && !f.All {
+		if v := scaleRepeatDeep(c, f, n, sc); v != nil {
+			return v
+		}
+	}
 	// second opinion: the reference interpreter on the implementation's parse
 	if !sc.NoModel {
 		if js, err := lang.VerifAST(sc.Prog); err == nil {
@@ -412,3 +418,40 @@ func addScale(p *fw.Prop) *fw.Prop {
 
 // register adds the scale sweeps that belong to a property and registers its check.
 func register(p *fw.Prop) { fw.Register(addScale(p)) }
+
+// scaleRepeatDeep: a schema of the form  <function definitions> BEGIN { BODY }  is rewritten so that BODY is the body of a
+// function that is called once per record of a K-record input, D frames below the rule. Every name BODY creates is local to
+// that call, so each call starts from the same state and prints the same text: the expected output is the closed form K times.
+// What this adds to the one-dimensional sweep of n: every site of BODY is evaluated K times in one run (whatever is remembered
+// per site, per cell or per frame between evaluations), and at a depth of D frames (whatever is sized by depth times n).
+func scaleRepeatDeep(c *fw.Ctx, f *scaleFam, n int, sc scaleCase) *fw.Violation {
+	prog := sc.Prog
+	i := strings.LastIndex(prog, "BEGIN {")
+	if i < 0 || (i > 0 && prog[i-1] != '\n') || strings.Count(prog, "BEGIN {") != 1 || !strings.HasSuffix(prog, "}\n") {
+		return nil
+	}
+	head, body := prog[:i], prog[i+len("BEGIN {"):len(prog)-2]
+	for _, kw := range []string{"\nEND", "\nBEGINFILE", "\nENDFILE", "next", "exit", "return ", "$"} {
+		if strings.Contains(body, kw) {
+			return nil
+		}
+	}
+	if head != "" && !strings.HasPrefix(head, "function ") {
+		return nil
+	}
+	for _, kd := range [][2]int{{3, 0}, {20, 1}, {2, 40}} {
+		k, d := kd[0], kd[1]
+		p2 := head + "function once__() {" + body + "}\nfunction deep__(n__) { if (n__ > 0) { return deep__(n__ - 1) } once__(); return 0 }\n{ deep__(" + itoa(d) + ") }\n"
+		s := drive.Spec{Program: p2, Files: []drive.File{{Name: "in.json", Data: "[" + nums(k, ", ") + "]"}}, Budget: int64(k)*(5000000+400*int64(n)) + 100000}
+		o := run(c, s)
+		c.Traces++
+		c.Transitions += o.Steps
+		if v := expect(s, o, strings.Repeat(sc.Want, k), drive.KNone, ""); v != nil {
+			o.Ev, o.Stdout = nil, clip(o.Stdout)
+			return &fw.Violation{What: fmt.Sprintf("%s, n = %d, the body run %d times, %d frames deep: %s", f.Name, n, k, d, strings.Replace(v.What, "the model", "the closed form", 1)),
+				Detail: detail{Program: clip(p2), WantStdout: clip(strings.Repeat(sc.Want, k)), WantKind: drive.KNone, Got: o}}
+		}
+	}
+	c.Note("scale: body repeated and nested", 1)
+	return nil
+}
